@@ -48,6 +48,9 @@ def child_env(overlay_dir, extra=None):
     env.update(PYTHONHASHSEED="0", OPENBLAS_NUM_THREADS="1", MKL_NUM_THREADS="1", VERIF_REPO=REPO,
                PYTHONDONTWRITEBYTECODE="1", HDF5_USE_FILE_LOCKING="FALSE")
     env.setdefault("OMP_NUM_THREADS", "4")
+    # never spin at OpenMP barriers: the machine may be oversubscribed (16 workers x teams)
+    env.setdefault("OMP_WAIT_POLICY", "PASSIVE")
+    env.setdefault("GOMP_SPINCOUNT", "0")
     env["PYTHONPATH"] = os.pathsep.join([VERIF, DEPS, REPO])
     if overlay_dir:
         env["VERIF_OVERLAY"] = overlay_dir
